@@ -22,7 +22,8 @@ import OpcuaModel.Gen.SeqNum
     newMsg t cnt         `newRequestMessage`/`newMessage`: draws the first number; the message has cnt chunks
     write t sq           one loop iteration: draws the next number if idx > 0, writes the chunk; sq = number seen on the wire
     abort t              the loop returns early (`ctx.Done()`, encode / sign / write error)
-    unlockInst t         deferred `instance.Unlock()`
+    unlockInst t         deferred `instance.Unlock()` (after the last chunk, after an abort, or straight
+                         after `lockInst` when the context is already done: no number is drawn then)
     pendDone t           `s.pendingReq.Done()`
     rLock                `s.reqLocker.lock()` of the renewal scheduled for the active token (one per installed token)
     rWaitBegin/rWaitDone `s.pendingReq.Wait()`  (it returns once the wait group was empty after the call)
@@ -174,6 +175,9 @@ def step? (s : St) : Label → Option St
     | _ => none
   | .unlockInst t =>
     match s.pc t with
+    | .locked i req =>
+      -- the context was already done: the function returns before a number is drawn
+      some { s with holder := upd s.holder i none, pc := upd s.pc t (if req then .unlocked i else .done) }
     | .writing i req idx cnt =>
       if idx = cnt then
         some { s with holder := upd s.holder i none, pc := upd s.pc t (if req then .unlocked i else .done) }
